@@ -162,6 +162,8 @@ func finish(prop, tier string, results []*harnessResult, known map[string]bool, 
 	}
 	for _, r := range results {
 		seen := map[string]int{}
+		// counterexamples from paths without over-approximating models first
+		sort.SliceStable(r.h.Violations, func(i, j int) bool { return !r.h.Violations[i].Abstract && r.h.Violations[j].Abstract })
 		for _, v := range r.h.Violations {
 			if seen["v"+v.Tag] >= 2 {
 				continue
